@@ -1410,9 +1410,10 @@ class Plot:
                         _plot_adapters = self._get_plot_adapters()[i : i + 1] if self._separate_figs else self._get_plot_adapters()
                         _max_abs_deviation = 0
                         for _plot_adapter in _plot_adapters:
+                            # same uncertainty as drawn by plot_pull (includes the Poisson term of the cost function)
                             _max_abs_deviation = max(
                                 _max_abs_deviation,
-                                np.max(np.abs((_plot_adapter.data_y - _plot_adapter.model_y) / _plot_adapter.data_yerr)),
+                                np.max(np.abs((_plot_adapter.data_y - _plot_adapter.model_y) / _plot_adapter._get_total_error(("data",)))),
                             )
                         # Small gap between highest error bar and plot border:
                         _low = -_max_abs_deviation * 1.2
